@@ -345,6 +345,11 @@ class FeatureCompiler(BaseFeatureCompiler):
         # if we generated some automatic features, includes have already been
         # resolved, and we work from a string which does't exist on disk
         path = self.ufo.path if not self.featureWriters else None
+        if not self.featureWriters and self.feaIncludeDir is not None:
+            # the lexer looks for included files next to this (fictitious) file, i.e.
+            # in feaIncludeDir, which is where setupFeatures resolves them when there
+            # are feature writers
+            path = os.path.join(self.feaIncludeDir, "features.fea")
         with timer("build OpenType features"):
             try:
                 addOpenTypeFeaturesFromString(self.ttFont, self.features, filename=path)
@@ -433,7 +438,7 @@ class VariableFeatureCompiler(FeatureCompiler):
 
     def setupFeatures(self):
         if self.featureWriters:
-            featureFile = parseLayoutFeatures(self.ufo)
+            featureFile = parseLayoutFeatures(self.ufo, self.feaIncludeDir)
 
             for writer in self.featureWriters:
                 writer.write(self.designspace, featureFile, compiler=self)
